@@ -336,8 +336,11 @@ def f6(ctx):
             drops = [e for e in evs if e.name == 'FUT.drop_local_data']
             canc = [e for e in evs if e.name in ('CANCEL_SEND', 'CANCEL_RECV')]
             waits = [e for e in evs if e.name == 'SIG.async_blocking_wait']
-            waiting = has(lb, 'fs_waiting', 'T')
-            done = has(lb, 'fs_done', 'T')
+            # `self.state.is_waiting()` / `is_done()` or a `match self.state { .. }`
+            waiting = has(lb, 'fs_waiting', 'T') or has(lb, 'fstate', 'Waiting')
+            done = has(lb, 'fs_done', 'T') or has(lb, 'fstate', 'Done')
+            notwaiting = has(lb, 'fs_waiting', 'F') or has(lb, 'fstate', 'Zero') or has(lb, 'fstate', 'Done') or any(
+                str(o).startswith('other(') and 'Waiting' not in str(o) for o in lb.get('fstate', []))
             bad = [e for e in evs if e.name in ('NEXT_SEND', 'NEXT_RECV', 'PUSH_SEND', 'PUSH_RECV', 'SIGSEND', 'SIGRECV', 'WR', 'TERMINATE_SIGNALS') or e.name.startswith('Q.')]
             if bad:
                 ctx.violate(key, p, 'future drop performs %s' % bad[0].name, at=bad[0].at)
@@ -373,7 +376,7 @@ def f6(ctx):
                     ctx.violate(key, p, 'cancel result not examined')
                     continue
             else:
-                if not has(lb, 'fs_waiting', 'F'):
+                if not notwaiting:
                     ctx.violate(key, p, 'drop returns on a path that never examined whether the future is registered: a pending future would leave its address in the wait list (the next peer writes into freed memory and its message is lost)')
                     continue
                 if canc or waits:
@@ -471,7 +474,8 @@ def f8(ctx):
         key = 'future::FutureState::' + nm
         b = ctx.body(key)
         if b is None:
-            ctx.violate(key, None, 'anchor missing', sig='anchor')
+            # the helper is optional (`match self.state` needs none); when it is gone nothing can call it
+            ctx.note('%s not present' % key)
             continue
         ctx.instance(key)
         for p, evs in all_paths(ctx, b):
@@ -487,6 +491,12 @@ def f8(ctx):
                         ok = True
             if r is not None and r[0] == 'bin' and r[1] == 'Eq':
                 ok = contains(r, ('param', 1)) and any(isinstance(x, tuple) and x[0] == 'agg' and x[2] == var for x in (r[2], r[3]))
+            if r is not None and r[0] == 'const' and r[1] == 'bool':
+                # `matches!(self, Self::Waiting)` / a match returning literals: a branch on the variant of *self
+                brs = [e for e in p.events if e.kind == 'br' and isinstance(e.val, tuple) and e.val[0] == 'discr' and contains(e.val[1], ('param', 1))]
+                if brs:
+                    ok = (brs[-1].outcome == var) == (r[2] == '1') and not (brs[-1].outcome or '').startswith('other(') or \
+                        ((brs[-1].outcome or '').startswith('other(') and var not in brs[-1].outcome and r[2] == '0')
             if not ok:
                 ctx.violate(key, p, 'FutureState::%s is not `*self == FutureState::%s`: %s' % (nm, var, fmt(r)))
     key = "future::ReceiveFuture::<'a, T>::new_ref"
